@@ -66,7 +66,8 @@ class History:
             for attempt in range(6):
                 try:
                     sess = Session(u, recursive=cfg.get("recursive", True), full=cfg.get("full", False), as_bytes=cfg.get("bytes", False),
-                                   spelling=cfg.get("spelling", "abs"), observer=cfg.get("observer", "inotify"), delay=cfg.get("delay", 0.1))
+                                   spelling=cfg.get("spelling", "abs"), observer=cfg.get("observer", "inotify"), delay=cfg.get("delay", 0.1),
+                                   follow_symlink=cfg.get("follow_symlink", False))
                     break
                 except OSError as e:
                     # the machine's inotify instances / watches are exhausted by other jobs: back off, never a verdict
@@ -115,7 +116,7 @@ class History:
                     if script is not None:
                         op = tuple(script[i])
                         if op[0] == "drain":
-                            self._drain_and_check(sess, tree, seg_ops, justify, probes=False)
+                            self._drain_and_check(sess, tree, seg_ops, justify, probes=(len(op) > 1 and op[1] == "probe"))
                             pacer.drained()
                             continue
                     else:
